@@ -98,6 +98,9 @@ func (s *Search) And(field, operator string, value interface{}) *Search {
 		return s
 	}
 
+	s.db.RLock()
+	defer s.db.RUnlock()
+
 	return s.db.search(s.object, field, operator, value, s.fields)
 }
 
@@ -108,7 +111,10 @@ func (s *Search) Or(field, operator string, value interface{}) *Search {
 		return s
 	}
 
+	s.db.RLock()
 	new := s.db.search(s.object, field, operator, value, nil)
+	s.db.RUnlock()
+
 	marked := make(map[uint64]bool)
 	// we mark the fields of the new search
 	for _, f := range new.fields {
@@ -131,6 +137,15 @@ func (s *Search) Len() int {
 // Iterator returns an Iterator convenient to iterate over
 // the objects resulting from the search
 func (s *Search) Iterator() (it *iterator, err error) {
+	s.db.RLock()
+	defer s.db.RUnlock()
+
+	return s.iterator()
+}
+
+// iterator returns an iterator over the objects resulting
+// from the search, the caller must hold the lock
+func (s *Search) iterator() (it *iterator, err error) {
 	var sch *Schema
 
 	if s.err != nil {
@@ -277,7 +292,7 @@ func (s *Search) collect() (out []Object, err error) {
 		return nil, s.err
 	}
 
-	if it, err = s.Iterator(); err != nil {
+	if it, err = s.iterator(); err != nil {
 		return
 	}
 
